@@ -142,6 +142,11 @@ def run_kani(names, tag, jobs=14, timeout_s=300, mem_gb=24, log=None, playback=F
     """One cargo-kani invocation over `names`. Returns (dict name->HarnessResult, stdout text, wall)."""
     os.makedirs(BUILD, exist_ok=True)
     tdir = os.path.join(BUILD, tag)
+    base = os.path.join(BUILD, "base")
+    if not os.path.isdir(tdir) and os.path.isdir(base):
+        # dependency crates were compiled once by ./setup; start from a copy (own dir per check so
+        # that checks of different properties can run concurrently)
+        subprocess.run(["cp", "-a", base, tdir], check=False)
     export = os.path.join(BUILD, f"{tag}.export.{os.getpid()}.json")
     if os.path.exists(export):
         os.remove(export)
